@@ -192,6 +192,26 @@ pub fn run(o: &Opts) -> i32 {
     };
     let wref = &words;
     let mut streams: Vec<Stream> = Vec::new();
+    // fixed hostile cases first (one case): the limit itself, one byte more, the largest block size with
+    // 31/32/64/65 top-level pieces, a declared size above 96 GiB
+    streams.push(Stream::new("hostile-sizes", 1, move |_i, _rng: &mut Rng, l: &mut Local| {
+        let top = wref[30][0];
+        for &(n_words, tail) in &[(1usize, 0usize), (31, 1), (32, 0), (33, 1), (64, 0), (65, 1), (70, 0)] {
+            let mut s = Vec::new();
+            for _ in 0..n_words {
+                s.extend_from_slice(&top);
+                s.extend_from_slice(&[0u8; 7]);
+            }
+            for k in 0..tail {
+                s.push(7 + k as u8);
+            }
+            for total in [MAX_INPUT, MAX_INPUT + 1, MAX_INPUT - 1, (96u64 << 30) + 1] {
+                let prefix = total - s.len() as u64;
+                check_case(l, prefix, &s, None, "hostile");
+                check_case(l, prefix, &s, Some(total.min(MAX_INPUT)), "hostile-declared");
+            }
+        }
+    }));
     // hook self-validation, small N completely
     streams.push(Stream::new("hook-validation-small", 3001, move |n, rng: &mut Rng, l: &mut Local| {
         let lv = rng.usize_below(31);
